@@ -198,6 +198,25 @@ theorem core_only_recoverable (p : Prim) (s : St) (hs : BufOK s) (a : Int) :
     · exact onlyRec_ok _
     · exact onlyRec_dec
     · exact onlyRec_ok _
+  · -- iszero
+    split
+    · exact onlyRec_io
+    · rename_i w h; exact absurd h (tryBitBufLen_nofault _ _ _)
+    · simp only [isZeroScan_in_bounds]
+      exact onlyRec_ok _
+
+/-- pkg/decode/scalar.go bitBufIsZero: the scan of the 32 KiB scratch buffer stays inside it for EVERY field
+    length (the ceiling division BitsByteCount(n) of a chunk of at most 32768*8 bits is at most 32768) -/
+theorem isZero_scan_in_bounds (nbits : Int) : isZeroScanFault isZeroScanBytes nbits = false :=
+  isZeroScan_in_bounds nbits
+
+/-- … and the guard is tight: with `int(n/8)+1` (seeded change S3-C06-2) a field of exactly one full buffer of
+    bits indexes b[32768] — while every shorter byte-aligned field, and every unaligned one, is still fine, which
+    is why only a long run of zeros (>= 32 KiB) exposes it -/
+theorem isZero_scan_seeded_faults :
+    isZeroScanFault isZeroScanBytesSeeded (32768 * 8) = true ∧ isZeroScanFault isZeroScanBytesSeeded (32767 * 8) = false ∧
+      isZeroScanFault isZeroScanBytesSeeded (32768 * 8 - 4) = false ∧ isZeroScanFault isZeroScanBytesSeeded (40000 * 8) = true := by
+  decide
 
 /-! ### regression witnesses: the core as it was before 8465c2ad (`corePrimOld`) did fault
     (known findings verif_c06:decode.(*D).TryBytesLen / TryBytesRange / SharedReadBuf / TryAlignBits, fixed) -/
